@@ -10,6 +10,7 @@ import (
 	goerrors "github.com/ajitpratap0/GoSQLX/pkg/errors"
 	"github.com/ajitpratap0/GoSQLX/pkg/gosqlx"
 	"github.com/ajitpratap0/GoSQLX/pkg/models"
+	"github.com/ajitpratap0/GoSQLX/pkg/sql/ast"
 	"github.com/ajitpratap0/GoSQLX/pkg/sql/tokenizer"
 )
 
@@ -535,6 +536,34 @@ func runC04(c *runCtx) {
 			if ty != kw.V {
 				res.fail("keyword-case", "the token type of a keyword depends on its letter case", map[string]any{"keyword": kw.K}, map[string]any{"types": types, "table": kw.V})
 				break
+			}
+		}
+	}
+	// a quoted form whose whole content spells a compound keyword stays one element and never changes the parse: every
+	// entry of the regenerated compound table x three letter cases x every quoting style
+	for _, kw := range lt.CompoundTypes {
+		for _, sp := range []string{kw.K, strings.ToLower(kw.K), mixed(kw.K)} {
+			for _, q := range []struct{ name, open, close, frame string }{
+				{"single-quoted", "'", "'", "SELECT a FROM t WHERE k = %s ORDER BY a"},
+				{"dollar-quoted", "$$", "$$", "SELECT a FROM t WHERE k = %s ORDER BY a"},
+				{"dollar-tagged", "$q$", "$q$", "SELECT a FROM t WHERE k = %s ORDER BY a"},
+				{"double-quoted", "\"", "\"", "SELECT %s FROM t ORDER BY a"},
+				{"backtick", "`", "`", "SELECT %s FROM t ORDER BY a"},
+				{"single-quoted-in-list", "'", "'", "SELECT a FROM t WHERE k IN ('x', %s) GROUP BY a"},
+				{"dollar-quoted-join", "$$", "$$", "SELECT a FROM t LEFT JOIN u ON u.k = %s"},
+			} {
+				sql := fmt.Sprintf(q.frame, q.open+sp+q.close)
+				res.count("quoted-compound|"+sql, true)
+				tree, err := gosqlx.Parse(sql)
+				wit := map[string]any{"sql": sql, "quoting": q.name, "content": sp}
+				if err != nil {
+					res.fail("quoted-compound-rejected:"+q.name, "a statement with a quoted form whose content spells a compound keyword is rejected: the content was read as keywords", wit, strings.SplitN(err.Error(), "\n", 2)[0])
+					continue
+				}
+				if d := dumpNode(tree); !strings.Contains(d, fmt.Sprintf("%q", sp)) {
+					res.fail("quoted-compound-value:"+q.name, "the tree does not carry the quoted content as written", wit, clip(d, 300))
+				}
+				ast.ReleaseAST(tree)
 			}
 		}
 	}
